@@ -156,6 +156,83 @@ def carry_obligations(H, summ, y):
     return out
 
 
+
+XHEAD = """From Coq Require Import ZArith QArith Qminmax Lqa List String Bool Lia.
+From HV Require Import Forms FormsCheck Xexp XexpProofs Rounding Balance.
+From Gen Require Import Forms%(y)d.
+Import ListNotations.
+Open Scope string_scope.
+Definition xblank_lines (f:string) : list string :=
+  match find_form cat f with
+  | Some fm => map l_name (filter (fun l => match l_body l with
+                                            | [SReturn (EIf _ EUnimpl (EConst PNone))] | [SReturn (EIf _ (EConst PNone) EUnimpl)] => true
+                                            | _ => false end) (f_lines fm))
+  | None => [] end.
+Ltac xblanks ev Hb :=
+  repeat match goal with |- context[ev ?n] => lazymatch goal with H : ev n == 0 |- _ => fail | _ => idtac end;
+    assert (ev n == 0) by (apply Hb; cbn; repeat (first [left; reflexivity | right])) end.
+Ltac xline_tac p :=
+  let H := fresh "H" in let Hb := fresh "Hb" in
+  intros ev ei q Hb H; tsem_split H; rewrite H;
+  first [ apply qround_eq_compat | (transitivity (qround p 0); [symmetry; apply qround_0 | apply qround_eq_compat]) ];
+  cbn [xeval] in *; xblanks ev Hb; num_cases; try congruence; mm_cases; lra.
+"""
+
+
+def x_item(i, c, p, theorem, y):
+    fs, ls = gen_forms.cstr(c['form']), gen_forms.cstr(c['line'])
+    t = ['Definition XT_%d := Eval vm_compute in top_or0 (top_of cat %s %s).' % (i, fs, ls),
+         'Definition XB_%d := Eval vm_compute in xblank_lines %s.' % (i, fs)]
+    stmt = ('forall ev ei q, (forall n, In n XB_%d -> ev n == 0) -> tsem ev ei %d XT_%d q -> q == qround %d (xeval ev ei %s)' % (
+        i, p, i, p, instr.to_xexp(c['term'])))
+    if theorem:
+        t.append('Lemma C02x_%d_%d : %s.\nProof. unfold XT_%d, XB_%d. xline_tac %d%%Z. Qed.' % (y, i, stmt, i, i, p))
+    else:
+        t.append('Goal %s.\nProof. unfold XT_%d, XB_%d. first [solve [xline_tac %d%%Z]; idtac "@@XOK %d" | idtac "@@XFAIL %d"]. Abort.' % (stmt, i, i, p, i, i))
+    return '\n'.join(t)
+
+
+def x_pass(ck, summ, per_year):
+    """the same lemmas stated on the stored value through Xexp.tsem: their tie to the interpreter is XexpProofs.xtop_sound (proved)"""
+    files = []
+    for y, cands in per_year.items():
+        txt = [XHEAD % {'y': y}, 'Goal True. idtac "@@XTOPS". Abort.',
+               'Eval vm_compute in map (fun fl => match top_of cat (fst fl) (snd fl) with Some _ => 1%%nat | None => 0%%nat end) %s.' %
+               gen_forms.clist(['(%s, %s)' % (gen_forms.cstr(c['form']), gen_forms.cstr(c['line'])) for c in cands]),
+               'Goal True. idtac "@@XENDTOPS". Abort.']
+        for i, c in enumerate(cands):
+            t = summ[y]['forms'][c['form']]['lines'][c['line']]['type']
+            c['places'] = int(t.split(':')[1]) if t.startswith('float') and ':' in t else (2 if t.startswith('float') else None)
+            if c['places'] is not None:
+                txt.append(x_item(i, c, c['places'], False, y))
+        files.append((y, ck.write_gen('C02_xdec_%d.v' % y, '\n'.join(txt) + '\n')))
+    res = ck.coqc_many([f for _, f in files], timeout=1200)
+    tfiles = []
+    out_info = {}
+    for y, f in files:
+        ok, out = res[f]
+        if not ok:
+            ck.oblige('x-decision-pass:%d' % y, False, out[-300:])
+            continue
+        cands = per_year[y]
+        tops = [int(x) for x in re.findall(r'\d+', out.split('@@XTOPS', 1)[1].split('@@XENDTOPS')[0].split(': list')[0].replace('%nat', ''))]
+        oks = set(int(x) for x in re.findall(r'@@XOK (\d+)', out))
+        good = [i for i, c in enumerate(cands) if i < len(tops) and tops[i] == 1 and i in oks and c.get('places') is not None]
+        for i in good:
+            cands[i]['xproved'] = True
+        out_info[str(y)] = {'lines_read_by_xtop': sum(tops), 'lemma_through_xtop_sound': len(good)}
+        txt = [XHEAD % {'y': y}] + [x_item(i, cands[i], cands[i]['places'], True, y) for i in good]
+        if good:
+            txt.append('Goal True. idtac "@@PA C02x_%d_%d". Abort.\nPrint Assumptions C02x_%d_%d.' % (y, good[0], y, good[0]))
+        tfiles.append((y, len(good), ck.write_gen('C02_x_%d.v' % y, '\n'.join(txt) + '\n')))
+    res2 = ck.coqc_many([f for _, _, f in tfiles], timeout=1200)
+    for y, n, f in tfiles:
+        ok, out = res2[f]
+        ck.harvest_assumptions(out)
+        ck.oblige('x-theorem-pass:%d (%d lemmas on the stored value, tie proved by xtop_sound)' % (y, n), ok, out[-300:] if not ok else '')
+    ck.cov['proved_end_to_end'] = out_info
+
+
 def real_eval(H, obj, line, env):
     field = [f for f in obj.fields() if f.base_name() == line][0]
 
@@ -317,6 +394,7 @@ def run(tier, seed):
         if good:
             txt += ['Goal True. idtac "@@PA C02_%d_%d". Abort.' % (y, good[0]), 'Print Assumptions C02_%d_%d.' % (y, good[0])]
         thm_files.append((y, len(good), ck.write_gen('C02_%d.v' % y, '\n'.join(txt) + '\n')))
+    x_pass(ck, summ, per_year)
     # carry sentences: the destination line must (statically, through intermediate lines) read the source line - for every copy of a per-person form
     carry_files = []
     for y in summ:
